@@ -44,6 +44,18 @@ func genSearchQ(r *rand.Rand, gs *GenState, ix string, dim int) Op {
 		op.Dir = pick(r, []string{"", "out", "in", "both"})
 		op.Depth = 1 + r.Intn(3)
 	}
+	if r.Intn(3) == 0 {
+		// text or hybrid search: the same universal negatives apply (filter, scope, liveness, no duplicates, <= k, order)
+		words := []string{"fox", "foxes", "quick", "dogs", "dog", "gatto", "run", "running", "lazy", "note", "zebra", "the"}
+		op.Val = pick(r, words)
+		if r.Intn(2) == 0 {
+			op.Val += " " + pick(r, words)
+		}
+		op.Alpha = pick(r, []float64{0, 0.3, 0.5, 0.5, 1})
+		if r.Intn(3) == 0 {
+			op.Vec = nil // text only
+		}
+	}
 	return op
 }
 
@@ -51,17 +63,23 @@ func genSearchQ(r *rand.Rand, gs *GenState, ix string, dim int) Op {
 // scores non-increasing and equal to the score recomputed from VGet data.
 func searchCheck(w *World, m *Model, op Op, i int, state string) bool {
 	mi := m.Idx[op.Idx]
-	if mi == nil || mi.Dim == 0 || len(op.Vec) != mi.Dim {
+	if mi == nil || mi.Dim == 0 {
 		return false
 	}
-	zero := true
-	for _, x := range op.Vec {
-		if x != 0 {
-			zero = false
+	textual := op.Val != ""
+	if !(textual && op.Vec == nil) {
+		if len(op.Vec) != mi.Dim {
+			return false
 		}
-	}
-	if zero {
-		return false
+		zero := true
+		for _, x := range op.Vec {
+			if x != 0 {
+				zero = false
+			}
+		}
+		if zero {
+			return false
+		}
 	}
 	e := w.E
 	var gq *engine.GraphQuery
@@ -78,12 +96,20 @@ func searchCheck(w *World, m *Model, op Op, i int, state string) bool {
 		}
 		scope = reach(out, in, op.ID, d, op.Dir == "" || op.Dir == "out" || op.Dir == "both", op.Dir == "in" || op.Dir == "both")
 	}
-	res, err := e.VSearchGraph(op.Idx, cloneVec(op.Vec), op.KK, op.Q, "", op.Ef, op.Alpha, nil, false, gq)
+	var qv []float32
+	if op.Vec != nil {
+		qv = cloneVec(op.Vec)
+	}
+	res, err := e.VSearchGraph(op.Idx, qv, op.KK, op.Q, op.Val, op.Ef, op.Alpha, nil, false, gq)
 	if err != nil {
 		w.Fail("search_ok", "search_error", fmt.Sprintf("query %d [%s] %v: %v", i, state, op, err), i)
 		return false
 	}
 	desc := fmt.Sprintf("query %d [%s] VSearch(k=%d ef=%d filter=%q scope=%s/%v/%q/%d)", i, state, op.KK, op.Ef, op.Q, op.ID, op.Rels, op.Dir, op.Depth)
+	if textual {
+		desc = fmt.Sprintf("query %d [%s] VSearch(k=%d ef=%d text=%q alpha=%g vector=%v filter=%q scope=%s/%v/%q/%d)", i, state, op.KK, op.Ef, op.Val, op.Alpha, op.Vec != nil, op.Q, op.ID, op.Rels, op.Dir, op.Depth)
+		w.Stat("text_or_hybrid_queries", 1)
+	}
 	if len(res) > op.KK {
 		w.Fail("at_most_k", "too_many_results", fmt.Sprintf("%s returned %d results", desc, len(res)), i)
 		return true
@@ -132,7 +158,7 @@ func searchCheck(w *World, m *Model, op Op, i int, state string) bool {
 				}
 			}
 		}
-		if !mi.memEnabled() && inRange {
+		if !mi.memEnabled() && inRange && !textual {
 			vd, err := e.VGet(op.Idx, r.ID)
 			if err != nil {
 				w.Fail("only_live", "result_not_gettable", fmt.Sprintf("%s returned %s but VGet fails: %v", desc, r.ID, err), i)
@@ -153,7 +179,7 @@ func searchCheck(w *World, m *Model, op Op, i int, state string) bool {
 		}
 	}
 	// exact regime: nothing eligible is missing
-	if mi.exact() && !mi.memEnabled() {
+	if mi.exact() && !mi.memEnabled() && !textual {
 		elig := 0
 		for id := range mi.Vecs {
 			if want != nil && want[id] == 0 {
